@@ -41,7 +41,7 @@ fn unhex(s: &str) -> Vec<u8> {
 }
 
 pub fn check_golden(w: &mut World) {
-    let dir = format!("/verif/golden/{}", wire::FEATURES);
+    let dir = format!("{}/golden/{}", crate::supervisor::verif_root(), wire::FEATURES);
     let r = guard(|| run(&dir));
     match r {
         Err(p) => w.fail(Class::Reload, "golden/panic", p),
